@@ -73,7 +73,9 @@ class ArbiterWorld(World):
                 "mid_elab": rng.range(1, n) if (n > 1 and rng.chance(0.12)) else None,
                 "decoy": int(rng.chance(0.1)),
                 "reset_at": rng.range(5, 60) if rng.chance(0.15) else None,
-                "omit": int(rng.chance(0.3))}
+                "omit": int(rng.chance(0.3)),
+                "bad_add": rng.choice(["aw", "dw", "gran", "not_interface"]) if rng.chance(0.12)
+                else None}
 
     def gen_ops(self, rng, config, prop):
         ops = []
@@ -157,6 +159,31 @@ class ArbiterWorld(World):
                     stats.fault("rejected_add")
                     continue
             intrs.append((ib, ic["g"], set(ic["feats"])))
+        if config.get("bad_add"):
+            # fault: an add() the arbiter has to refuse (and survive unchanged)
+            kind = config["bad_add"]
+            bad = None
+            if kind == "aw":
+                bad = wishbone.Interface(addr_width=aw + 1, data_width=dw, granularity=g,
+                                         features=spell(feats))
+            elif kind == "dw" :
+                odw = dw * 2 if dw < 64 else dw // 2
+                if odw >= g:
+                    bad = wishbone.Interface(addr_width=aw, data_width=odw, granularity=max(g, min(odw, g)),
+                                             features=spell(feats))
+            elif kind == "gran" and g > 8:
+                bad = wishbone.Interface(addr_width=aw, data_width=dw, granularity=g // 2,
+                                         features=spell(feats))
+            elif kind == "not_interface":
+                bad = object()
+            if bad is not None:
+                try:
+                    dut.add(bad)
+                    raise Violation(me, "invalid-initiator-accepted", 0,
+                                    f"add() accepted an initiator it must refuse ({kind})",
+                                    key=f"invalid-initiator-accepted:{kind}")
+                except (ValueError, TypeError):
+                    stats.fault("rejected_add")
         if config.get("decoy"):
             # a second arbiter is built afterwards in the same process (state shared between
             # instances must not leak into the first)
